@@ -355,11 +355,11 @@ esl_msafile_a2m_Read(ESL_MSAFILE *afp, ESL_MSA **ret_msa)
   if (nins)      free(nins);
   if (this_nins) free(this_nins);
   if (csflag) {
-    for (idx = 0; idx < msa->nseq; idx++) 
+    for (idx = 0; idx < msa->sqalloc; idx++)   /* msa->nseq isn't set until we succeed; csflag[] is allocated and NULL-initialized for sqalloc */
       if (csflag[idx]) free(csflag[idx]);
     free(csflag);
   }
-  if (msa) esl_msa_Destroy(msa);
+  if (msa) { msa->nseq = msa->sqalloc; esl_msa_Destroy(msa); } /* rows are stored before <nseq> is set; per-seq arrays are NULL-initialized for <sqalloc> */
   return status;
 }
 
